@@ -1411,6 +1411,26 @@ pub fn cache_life(out: &mut Out, rng: &mut Rng, cfg: &Config, g: &GenOpts) {
             s.drain();
             continue;
         }
+        // fill to the brim (fit lives): one key's cost goes up and down more often than there is slack in
+        // the budget, then every key of the life is written at its full share and read at quiescence: the
+        // accounting must be exact to the unit, or a key that fits is evicted or refused (C01, C04, C06)
+        if !closed && fit && !g.collisions && rng.chance(1, 25) {
+            for _ in 0..universe + 2 {
+                s.insert(idx, conf, share, 0, false);
+                s.drain();
+                s.insert(idx, conf, 1, 0, false);
+                s.drain();
+            }
+            for i in 0..universe {
+                s.insert(base + i, cf(base + i), share, 0, false);
+                s.drain();
+            }
+            for i in 0..universe {
+                s.get(base + i, cf(base + i));
+            }
+            s.len();
+            continue;
+        }
         // estimator after clear(): a key is looked up often, the lookups are applied, the cache is
         // cleared, and the key is inserted again: the estimator must be that of a fresh cache (C11, C13)
         if !closed && rng.chance(1, 60) {
